@@ -2,6 +2,9 @@ package controllers_test
 
 import (
 	"encoding/json"
+	"math/rand"
+	"runtime"
+	"sync"
 	"testing"
 
 	"package-operator.run/internal/verifkit"
@@ -13,7 +16,7 @@ func TestVerifSys(t *testing.T) {
 	defer r.Close()
 	run := func(s Scn) {
 		out := verifkit.Guard(func() string { return Exec(s) })
-		r.Emit(s, out, append(Tags(s, out), EnvTags(s, out)...)...)
+		r.Emit(s, out, append(append(Tags(s, out), EnvTags(s, out)...), ProbeTags(s, out)...)...)
 	}
 	for _, line := range r.Fixed() {
 		var s Scn
@@ -65,6 +68,14 @@ func TestVerifSys(t *testing.T) {
 	for i := 0; i < n; i++ {
 		run(PauseRace(r.Rng))
 	}
+	// what the probes look at and what ProbeFailure names (gen_probe.go): manifests carrying a `.status`
+	// stanza of their own, phase names occurring in the ProbeFailure message of other phases, the first
+	// failing phase moving forwards / backwards from pass to pass
+	n = r.Pick(250, 2500)
+	for i := 0; i < n; i++ {
+		run(Decorated(r.Rng))
+		run(Gated(r.Rng))
+	}
 }
 
 // TestVerifSysSlices (property C04, stream "slices"): rolled-out ObjectSets keeping objects in
@@ -89,5 +100,55 @@ func TestVerifSysSlices(t *testing.T) {
 	n := r.Pick(1500, 6000)
 	for i := 0; i < n; i++ {
 		run(Sliced(r.Rng))
+	}
+}
+
+// TestVerifSysTeardown (property C04, stream "teardown"): rolled-out ObjectSets with local and
+// delegated phases are archived / deleted while third parties write to or delete an object exactly
+// between the GET and the DELETE / PATCH of its own teardown (gen_teardown.go).
+func TestVerifSysTeardown(t *testing.T) {
+	r := verifkit.Open(t, "SYSTEARDOWN")
+	defer r.Close()
+	run := func(s Scn) {
+		out := verifkit.Guard(func() string { return Exec(s) })
+		r.Emit(s, out, TeardownTags(s, out)...)
+	}
+	for _, line := range r.Fixed() {
+		var s Scn
+		if err := json.Unmarshal([]byte(line), &s); err != nil {
+			t.Fatalf("bad scenario: %v", err)
+		}
+		run(s)
+	}
+	if r.ReplayOnly() {
+		return
+	}
+	// The generator probes the code under test (it runs every history two or three times), so the
+	// scenarios are built and run on all cores: each one from its own random source, seeded in
+	// order from the stream's; they are independent (own store, own controllers) and emitted in order.
+	n := r.Pick(700, 5000)
+	seeds := make([]int64, n)
+	for i := range seeds {
+		seeds[i] = r.Rng.Int63()
+	}
+	scns := make([]Scn, n)
+	outs := make([]string, n)
+	var wg sync.WaitGroup
+	sem := make(chan struct{}, runtime.NumCPU())
+	for i := range seeds {
+		wg.Add(1)
+		sem <- struct{}{}
+		go func(i int) {
+			defer wg.Done()
+			defer func() { <-sem }()
+			outs[i] = verifkit.Guard(func() string {
+				scns[i] = TeardownRace(rand.New(rand.NewSource(seeds[i])))
+				return Exec(scns[i])
+			})
+		}(i)
+	}
+	wg.Wait()
+	for i := range scns {
+		r.Emit(scns[i], outs[i], TeardownTags(scns[i], outs[i])...)
 	}
 }
